@@ -22,7 +22,7 @@ from harness import core, tlaval
 from harness import types_enum as te
 
 LEVEL = "model_checking"
-XSS = {"JAVA_TOOL_OPTIONS": "-Xss64m"}
+XSS = {"JAVA_TOOL_OPTIONS": "-Xss64m -XX:ParallelGCThreads=2 -Xms256m"}
 VARIANTS = ("fwddict", "signle", "rangele")
 
 CFG = """SPECIFICATION Spec
@@ -174,14 +174,14 @@ def design_level(ctx):
             ("MC_Enum(<=%d enumerators, boundary values)" % (3 if quick else 4), cfg(3 if quick else 4, 2 if quick else 3, False), 6)]
 
     def mc(a):
-        return core.tlc("MC_Enum", cfg_text=a[1], workers=a[2], timeout=3000)
+        return core.tlc("MC_Enum", cfg_text=a[1], workers=a[2], timeout=3000, env=XSS)
 
     def variant(v):
-        return core.tlc("MC_Enum", cfg_text=cfg(2, 0, False, v), workers=2, timeout=900)
+        return core.tlc("MC_Enum", cfg_text=cfg(2, 0, False, v), workers=2, timeout=900, env=XSS)
 
     def bv(_):
         return core.tlc("MC_PlatformBV", cfg_text="INIT Init\nNEXT Next\nCONSTANTS LB = 2\n  R = %d\n" % (10 if quick else 40),
-                        workers=1, timeout=3000)
+                        workers=1, timeout=3000, env=XSS)
     with concurrent.futures.ThreadPoolExecutor(max_workers=6) as ex:
         fm = [ex.submit(mc, a) for a in runs]
         fv = [ex.submit(variant, v) for v in VARIANTS]
